@@ -886,6 +886,14 @@ func (f *fnCtx) assignTo(lhs ast.Expr, term string, define bool, rhs ast.Expr) {
 		f.emit("let " + f.nameOf(o) + " : " + k.lean + " := " + term)
 		f.declare(o)
 		delete(f.stale, o)
+		// a value read from an object by a plain accessor (`from := msg.GetFrom()`) remembers where it came from: handed on to
+		// another object's method it names that accessor (like an object argument) instead of becoming a value argument
+		delete(f.valOrigin, o)
+		if rhs != nil && define && k.k == kBytes {
+			if p, args, ok := f.pathOf(rhs); ok && args == nil && len(p.segs) > 0 {
+				f.valOrigin[o] = p
+			}
+		}
 		if k.k == kBig && rhs != nil {
 			f.fresh[o] = f.isFreshBig(rhs)
 			var as []types.Object
@@ -996,6 +1004,14 @@ func (f *fnCtx) bind(lhs ast.Expr, rhs ast.Expr, define bool) {
 				// a local name for an opaque object: an alias of the accessor path
 				f.bindIndexRoots(rhs)
 				p, args, ok := f.pathOf(rhs)
+				if ok && args == nil {
+					if c, isCall := rhs.(*ast.CallExpr); isCall {
+						if sel, isSel := c.Fun.(*ast.SelectorExpr); isSel && effectful[sel.Sel.Name] {
+							// an object obtained from a call that has an effect (the context returned by SetupExecutionContext)
+							f.effect(f.nameOfRootGo(p.root)+"."+strings.Join(p.segs, "."), nil)
+						}
+					}
+				}
 				if !ok || args != nil {
 					// an object the function builds itself — a composite literal, or the result of a package function the
 					// translator does not interpret: an object *named by its construction*.  The name (with a hash of the
@@ -1414,7 +1430,7 @@ func (g *gen) translate(t trTarget) {
 			names: map[types.Object]string{}, used: map[string]bool{}, roots: map[types.Object]string{},
 			alias: map[types.Object]pathVal{}, must: map[types.Object]types.Object{}, may: map[types.Object][]types.Object{},
 			stale: map[types.Object]bool{}, fresh: map[types.Object]bool{}, mut: map[types.Object]bool{}, mutAss: mutAss, effAss: effAss,
-			idxRoot: map[*ast.IndexExpr]types.Object{}}
+			idxRoot: map[*ast.IndexExpr]types.Object{}, valOrigin: map[types.Object]pathVal{}}
 		text, sig = f.function()
 		changed := false
 		for o := range f.mut {
